@@ -378,6 +378,12 @@ __md_get_yday(unsigned int year, unsigned int mon, unsigned int dom)
 		31, 59, 90, 120, 151, 181,
 		212, 243, 273, 304, 334, 365
 	};
+
+	if (UNLIKELY(mon >= sizeof(__mon_yday) / sizeof(*__mon_yday))) {
+		/* no such month, as left behind by arithmetic on a date
+		 * whose month is 0, don't read past the table */
+		return 0U;
+	}
 	return __mon_yday[mon] + dom + UNLIKELY(__leapp(year) && mon >= 3);
 }
 
